@@ -1810,6 +1810,12 @@ class Folder:
                 if isinstance(v, list):
                     raise Unfoldable("bool of a list")
                 return bool(v)
+            if nm == "round" and 1 <= len(node.args) <= 2 and not node.keywords:
+                v = self.fold(node.args[0])
+                nd_ = self.fold(node.args[1]) if len(node.args) == 2 else None
+                if isinstance(v, (int, float)) and not isinstance(v, bool) and (nd_ is None or (isinstance(nd_, int) and not isinstance(nd_, bool))) and v == v and v not in (float("inf"), float("-inf")):
+                    return round(v) if nd_ is None else round(v, nd_)  # python's round (half to even), as for a python number / .item()
+                raise Unfoldable("round of a non-number")
             if nm == "float" and len(node.args) == 1 and isinstance(node.args[0], ast.Constant) and isinstance(node.args[0].value, str):
                 try:
                     return float(node.args[0].value)
